@@ -27,6 +27,11 @@ type Parser struct {
 
 	inBacktick bool
 	recur      int64
+
+	// open counts the brackets ( [ { we are currently inside of.
+	// Outside any bracket, running out of input means the text is
+	// complete; inside, it means we need more input.
+	open int
 }
 
 type ParserReply struct {
@@ -64,6 +69,7 @@ func (p *Parser) Reset() {
 		p.stop()
 		p.stop = nil
 	}
+	p.open = 0
 	p.sendMe = &ParserReply{}
 	p.yield = nil
 	p.lexer.Reset()
@@ -76,6 +82,7 @@ func (p *Parser) Stop() error {
 	}
 	p.next = nil
 	p.yield = nil
+	p.open = 0
 	return nil
 }
 
@@ -89,6 +96,7 @@ func (p *Parser) ResetAddNewInput(s io.RuneScanner) {
 		p.stop()
 		p.stop = nil
 	}
+	p.open = 0
 	p.yield = nil
 	p.sendMe = &ParserReply{}
 	p.lexer.Reset()
@@ -258,12 +266,18 @@ func (parser *Parser) ParseExpression(depth int) (res Sexp, err error) {
 
 	switch tok.typ {
 	case TokenLParen:
+		parser.open++
 		exp, err := parser.ParseList(depth+1, TokenRParen)
+		parser.open--
 		return exp, err
 	case TokenLSquare:
+		parser.open++
 		exp, err := parser.ParseArray(depth + 1)
+		parser.open--
 		return exp, err
 	case TokenLCurly:
+		parser.open++
+		defer func() { parser.open-- }()
 		// allow `{ symbol: ` to initiate a `(hash symbol:` so we can parse JSON type {} hashmaps.
 		tok2, err := parser.ParserPeekNextToken(0)
 		if err != nil {
@@ -530,12 +544,30 @@ func (parser *Parser) parsePrefixOperand(depth int) (Sexp, error) {
 		if err != nil || expr != SexpEnd {
 			return expr, err
 		}
+		flushed, err := parser.flushAtTopLevel()
+		if err != nil {
+			return SexpEnd, err
+		}
+		if flushed {
+			continue
+		}
 		parser.sendMe.Err = ErrMoreInputNeeded
 		ok := parser.yield(parser.sendMe)
 		if !ok {
 			return SexpEnd, ParserHaltRequested
 		}
 	}
+}
+
+// flushAtTopLevel is called when the token stream has run dry. Outside
+// any bracket that means the text is complete, so the lexer can emit a
+// last token that no delimiter follows. Returns true if it did.
+func (parser *Parser) flushAtTopLevel() (bool, error) {
+	if parser.open > 0 {
+		return false, nil
+	}
+	flushed, _, err := parser.lexer.finishText()
+	return flushed, err
 }
 
 // ParseTokens is the main service the Parser provides.
@@ -783,6 +815,16 @@ func (parser *Parser) ParserPeekNextToken(extra int) (tok Token, err error) {
 		if tok.typ != TokenEnd {
 			return
 		} else {
+			if parser.open == 0 {
+				// outside any bracket the text ends here: look at
+				// a pending last token, but do not wait for more.
+				var flushed bool
+				flushed, err = parser.flushAtTopLevel()
+				if err != nil || !flushed {
+					return
+				}
+				continue
+			}
 			//instead of return SexpEnd, UnexpectedEnd
 			// we ask for more, and then loop
 
